@@ -45,6 +45,9 @@ M = [
   "expected : {:?}\",self.total_work, amount_of_routing_work_needed);\n                return false;", "expected : {:?}\",self.total_work, amount_of_routing_work_needed);"),
  ("C08-ticket-checked-against-own-difficulty", C + "consensus/block.rs",
   "                if !gt.validate(previous_block.difficulty) {", "                if !gt.validate(self.difficulty) {"),
+ # ---------------- C09
+ ("C09-size-predictor-wrong-hop-size", C + "consensus/transaction.rs",
+  "            + (HOP_SIZE * self.path.len())", "            + (SLIP_SIZE * self.path.len())"),
  # ---------------- C10
  ("C10-tx-length-check-dropped", C + "consensus/transaction.rs",
   "        if bytes.len() < end_of_path {\n            // the buffer is shorter than the lengths declared in its header\n            return Err(Error::from(ErrorKind::InvalidData));\n        }\n", ""),
